@@ -142,7 +142,14 @@ impl ShortFileName {
                     }
                 }
                 _ => {
-                    let b = ch.to_ascii_uppercase() as u8;
+                    let b = match ch.to_ascii_uppercase() as u8 {
+                        // The lower-case letters of ISO-8859-1 have their
+                        // upper-case forms 0x20 below them (0xF7 is the
+                        // division sign; 0xDF and 0xFF have no upper-case form
+                        // in this character set).
+                        b @ (0xE0..=0xF6 | 0xF8..=0xFE) => b - 0x20,
+                        b => b,
+                    };
                     if seen_dot {
                         if (Self::BASE_LEN..Self::TOTAL_LEN).contains(&idx) {
                             sfn.contents[idx] = b;
